@@ -641,7 +641,114 @@ def r01_9(run):
     run.floor('R01.9', 'calls of self.command[2](...)', sites, 4)
 
 
+# --------------------------------------------------------------------- R01.6
+FSM_ORACLE = {
+    # (state, line class) -> (next state, handler role)
+    ('IDLE', 'status'): ('IDLE', 'broadcast'), ('IDLE', 'mid'): ('RECV', 'start'), ('IDLE', 'data0'): ('RECV_PLUS', 'start'),
+    ('RECV', 'status'): ('IDLE', 'broadcast'), ('RECV', 'mid'): ('RECV', 'accumulate'), ('RECV', 'data0'): ('RECV_PLUS', 'accumulate'),
+    ('RECV_PLUS', 'dot'): ('RECV', 'none'),
+    ('RECV_PLUS', 'status'): ('RECV_PLUS', 'raw'), ('RECV_PLUS', 'mid'): ('RECV_PLUS', 'raw'), ('RECV_PLUS', 'data0'): ('RECV_PLUS', 'raw'),
+    ('RECV_PLUS', 'stuffed'): ('RECV_PLUS', 'raw'), ('RECV_PLUS', 'empty'): ('RECV_PLUS', 'raw'), ('RECV_PLUS', 'blankdot'): ('RECV_PLUS', 'raw'),
+    ('RECV_PLUS', 'text'): ('RECV_PLUS', 'raw'), ('RECV_PLUS', 'keyval'): ('RECV_PLUS', 'raw'),
+}
+ROLE = {'self._broadcast_response': 'broadcast', 'self._start_command': 'start', 'self._accumulate_response': 'accumulate',
+        'self._accumulate_multi_response': 'raw'}
+
+
+def r01_6(run):
+    from ..tables import SpaghettiTable
+    from ..strsem import Interp, classify
+    ci = proto(run)
+    init = U(run, '__init__')
+    tab = SpaghettiTable(init)
+    run.floor('R01.6', 'control FSM states', len(tab.states), 4)
+    run.floor('R01.6', 'control FSM transitions', len(tab.trans), 8)
+    lam = dict((id(c.node), c) for c in init.children if isinstance(c.node, ast.Lambda))
+
+    def resolver(call, unit):
+        d = dotted(call.func) or ''
+        if d.startswith('self.') and len(d.split('.')) == 2:
+            return run.idx.find_method(ci, d.split('.')[1])
+        return None
+
+    def matcher_fn(m, code):
+        d = dotted(m)
+        if d and d.startswith('self.'):
+            u = run.idx.find_method(ci, d.split('.')[1])
+        elif isinstance(m, ast.Lambda):
+            u = lam.get(id(m))
+        else:
+            u = None
+        if u is None:
+            raise Undecided('matcher %s not resolvable' % src(m))
+        return lambda line: Interp(resolve_call=resolver, attrs={'self.code': code}).call_unit(u, [line])
+    by_name = dict((nm, var) for var, nm in tab.states.items())
+    for need in ('IDLE', 'RECV', 'RECV_PLUS'):
+        if need not in by_name:
+            raise AnchorVanished('FSM state %s' % need)
+    for code_txt, code in (('250', 250), ('552', 552), ('650', 650)):
+        classes = [('status', code_txt + ' ', False), ('mid', code_txt + '-', False), ('data0', code_txt + '+', False)]
+        data_classes = classes + [('dot', '.', True), ('stuffed', '..', False), ('empty', '', True), ('blankdot', ' .', True),
+                                  ('text', 'abc', False), ('keyval', 'k=', False)]
+        for sname in ('IDLE', 'RECV', 'RECV_PLUS'):
+            var = by_name[sname]
+            trans = tab.of_state(var)
+            cur_code = None if sname == 'IDLE' else code
+            for cname, prefix, exact in (data_classes if sname == 'RECV_PLUS' else classes):
+                want = FSM_ORACLE.get((sname, cname))
+                if want is None:
+                    continue
+                fired, undec = None, False
+                for t in trans:
+                    r = classify(matcher_fn(t['matcher'], cur_code), prefix, exact)
+                    if r is None:
+                        run.ob('R01.6', init, t['node'], 'matcher decided on class %s in %s' % (cname, sname), None,
+                               message='matcher %s is not constant on line class %r' % (src(t['matcher'])[:40], prefix))
+                        undec = True
+                        break
+                    if isinstance(r, tuple):
+                        run.ob('R01.6', init, t['node'], 'no matcher raises on a well-formed %s line in %s' % (cname, sname), False, slot='raises:%s:%s' % (sname, cname),
+                               message='in %s the matcher %s raises %s on a %r... line (code %s)' % (sname, src(t['matcher']), r[1], prefix, code_txt))
+                        undec = True
+                        break
+                    if r:
+                        fired = t
+                        break
+                if undec:
+                    continue
+                if fired is None:
+                    run.ob('R01.6', init, init.node, 'a transition fires for %s in %s' % (cname, sname), False, slot='nofire:%s:%s' % (sname, cname),
+                           message='no transition of %s matches a %r line: the line is dropped with a "No next state" warning' % (sname, prefix))
+                    continue
+                nxt = tab.states.get(fired['next'], fired['next'])
+                h = fired['handler']
+                hd = dotted(h) if h is not None else None
+                role = ROLE.get(hd, 'none' if (h is None or is_none(h) or (isinstance(h, ast.Lambda) and is_none(h.body))) else 'other:%s' % src(h)[:30])
+                ok = (nxt, role) == want
+                run.ob('R01.6', init, fired['node'], '%s + %s line (code %s) -> %s / %s' % (sname, cname, code_txt, want[0], want[1]), ok, slot='fsm:%s:%s' % (sname, cname),
+                       message='in state %s a %s line %r goes to %s via %s (control-spec 2.3 wants %s / %s)' % (sname, cname, prefix, nxt, role, want[0], want[1]))
+    # the machine starts in IDLE and the unused first state is never entered
+    st = [n for n in walk_unit(init) if isinstance(n, ast.Assign) and dotted(n.targets[0]) == 'self.fsm.state']
+    ok = len(st) == 1 and tab.states.get(dotted(st[0].value)) == 'IDLE'
+    run.ob('R01.6', init, init.node, 'the line machine starts in IDLE', ok, slot='initial', message='initial state is %s' % [src(x.value) for x in st])
+    # spaghetti semantics relied upon: first match wins; a handler returning None keeps the table's next state
+    sp = run.idx.find_method(run.idx.cls('State', 'spaghetti'), 'process')
+    loops = [n for n in walk_unit(sp) if isinstance(n, ast.For) and dotted(n.iter) == 'self.transitions']
+    ok = len(loops) == 1 and any(isinstance(x, ast.Return) for x in ast.walk(loops[0]))
+    run.ob('R01.6', sp, sp.node, 'State.process returns at the first matching transition', ok, slot='first-match', message='State.process no longer first-match')
+    th = run.idx.find_method(run.idx.cls('Transition', 'spaghetti'), 'handle')
+    ok = any(isinstance(r, ast.Return) and dotted(r.value) == 'self.next_state' for r in walk_unit(th)) and \
+        any(isinstance(n, ast.Compare) and is_none(n.comparators[0]) and dotted(n.left) == 'state' for n in walk_unit(th))
+    run.ob('R01.6', th, th.node, 'a handler returning None moves to the transition\'s next state', ok, slot='handle-none', message='Transition.handle changed')
+    # handlers of the three accumulate/start kinds return None (they never redirect the machine)
+    for hn in ('_start_command', '_accumulate_response', '_accumulate_multi_response', '_broadcast_response'):
+        hu = U(run, hn)
+        rets = [r for r in walk_unit(hu) if isinstance(r, ast.Return) and r.value is not None and not is_none(r.value)]
+        run.ob('R01.6', hu, hu.node, '%s never redirects the machine (returns None)' % hn, not rets, slot='handler-returns:%s' % hn, message='%s returns %s' % (hn, [src(r.value) for r in rets]))
+
+
 RULES = [
+    ('R01.6', 'FSM table x abstract line classes (matcher ASTs interpreted on class representatives, first-match) against the control-spec 2.3 reply grammar, for 2xx/5xx/6xx codes', r01_6),
     ('R01.1', 'who-may-call: the control transport is written only in _maybe_issue_command', r01_1),
     ('R01.2', 'def-use: written bytes = queued command (tuple element agreement) + constant CRLF', r01_2),
     ('R01.3', 'mutation-site enumeration: queue is append-tail/pop-head only; returned Deferred is the queued one; issue attempted after append', r01_3),
@@ -684,4 +791,17 @@ TWINS = [
     M('guard-is-not-none', F, "        if self.command:\n            return\n", "        if self.command is not None:\n            return\n"),
     M('reorder-resets', F, "        self.command = None\n        self.code = None\n        self.defer = None\n        self._maybe_issue_command()", "        self.code = None\n        self.defer = None\n        self.command = None\n        self._maybe_issue_command()"),
     M('chained-compare', F, "elif self.code >= 500 and self.code < 600:", "elif 500 <= self.code < 600:"),
+]
+
+MUTANTS += [
+    M('idle-rows-swapped', F, "        idle.add_transition(Transition(idle,\n                                       self._is_single_line_response,\n                                       self._broadcast_response))\n        idle.add_transition(Transition(recvmulti,\n                                       self._is_multi_line,\n                                       self._start_command))", "        idle.add_transition(Transition(recvmulti,\n                                       self._is_single_line_response,\n                                       self._start_command))\n        idle.add_transition(Transition(idle,\n                                       self._is_multi_line,\n                                       self._broadcast_response))", ['R01.6']),
+    M('continuation-index-2', F, "        return line[3] == '-'", "        return line[2] == '-'", ['R01.6']),
+    M('end-line-strip', F, "        return line == '.'", "        return line.strip() == '.'", ['R01.6']),
+    M('end-line-dotdot', F, "        return line == '.'", "        return line.startswith('.')", ['R01.6']),
+    M('multi-goes-to-recv', F, "        recv.add_transition(Transition(recvmulti,\n                                       self._is_multi_line,\n                                       self._accumulate_response))", "        recv.add_transition(Transition(recv,\n                                       self._is_multi_line,\n                                       self._accumulate_response))", ['R01.6']),
+    M('finish-any-dot', F, "        if len(line) > 3 and line[3] == ' ':\n            return True\n        return False\n\n    def _broadcast_response", "        if len(line) > 3 and line[3] in ' -':\n            return True\n        return False\n\n    def _broadcast_response", None),
+]
+MUTANTS = [m for m in MUTANTS if m.name != 'finish-any-dot']
+TWINS += [
+    M('end-line-len', F, "        return line == '.'", "        return len(line) == 1 and line[0] == '.'"),
 ]
